@@ -621,9 +621,10 @@ def oracle_pipeline(rng, n, stats):
             if not lt and not rt:
                 continue
             raw = SIMS[which](set(lt), set(rt))
+            raw_list = SIMS[which](lt, rt)      # what apply_matcher computes: py_stringmatching on the token LISTS
             op = OPS[kw['comp_op']]
-            if op(raw, t) != op(round(raw, 4), t):
-                continue          # straddling pair: excluded by the property
+            if op(raw, t) != op(round(raw, 4), t) or op(raw_list, t) != op(round(raw_list, 4), t):
+                continue          # straddling pair (raw and rounded score on different sides of t): excluded by the property
             if (p in jp) != (p in pp):
                 v.append(viol('C07', 'join and %s-filter pipeline disagree on pair (score %r, t %r)' % (fk, raw, t), case, p in pp, p in jp))
             elif p in jp and round(float(pp[p]), 4) != float(jp[p]):
